@@ -330,19 +330,26 @@ def search(ctx, broken, corr_failures):
 
 
 def explains(broken_item, found):
-    keys = " ".join(v.key for v in found).lower()
-    b = broken_item.lower()
-    table = [(("weights", "gen_w", "basis", "partition", "precision", "polynomial"), ("interpolation_weights", "evaluate_cubic_bspline", "update")),
-             (("gen_b", "cubic_bspline_value", "kernels.py", "kert", "kernel1d", "algorithms", "transpose", "evt"),
+    """a concrete failing input explains a broken obligation when it is about the same source function; the lemma name
+    (proof obligations read 'Proofs/File.v:line lemma: message') is matched first, the whole text otherwise"""
+    import re
+    known, _ = vlib.load_findings()  # a known finding never explains a newly broken obligation
+    keys = " ".join(v.key for v in found if v.key not in known).lower()
+    m = re.search(r"\.v:\d+ ([A-Za-z0-9_']+):", broken_item)
+    b = (m.group(1) if m else broken_item).lower()
+    table = [(("gen_b", "bspec", "bw0", "bw1", "bw2", "bw3", "kert", "kernel1d", "transpose", "algorithms", "evt"),
               ("cubic_bspline_value", "algorithms-disagree", "transpose=true")),
-             (("ctrl", "control", "covers"), ("control_point_grid",)),
-             (("sub", "refine", "two_scale", "grid_"), ("subdivide", "grid_")),
-             (("ev1", "ev2", "ev3", "eval", "mirtk", "ffd", "sderiv", "bspline.py", "translator unit"),
-              ("evaluate_cubic_bspline", "update", "spatial_derivatives", "interpolation_weights", "subdivide", "control_point_grid", "grid_"))]
+             (("ctrl", "control", "covers", "refine_size"), ("control_point_grid",)),
+             (("two_scale", "stencil", "subdiv", "refine", "grid_"), ("subdivide", "grid_")),
+             (("gen_w", "weights", "basis", "partition", "precision", "polynomial", "moment", "spl_affine", "ffd_affine"),
+              ("interpolation_weights", "evaluate_cubic_bspline", "update")),
+             (("ev1", "ev2", "ev3", "eval", "mirtk", "ffd", "sderiv", "bspline.py", "translator unit", "correspondence"),
+              ("evaluate_cubic_bspline", "update", "spatial_derivatives", "interpolation_weights", "subdivide", "control_point_grid", "grid_",
+               "cubic_bspline_value"))]
     for bs, ks in table:
         if any(x in b for x in bs):
             return any(x.lower() in keys for x in ks)
-    return bool(found)
+    return any(v.key not in known for v in found)
 
 
 def replay(ctx, data):
